@@ -822,6 +822,55 @@ def pv1(ctx, R):
 # ---------------------------------------------------------------------------
 # OW3 scaling purity (C13)
 
+@rule("EQ1", "a shortcut that treats two raw data indexes as the same compares every field an index carries", floor=0)
+def eq1(ctx, R):
+    """Segment objects are compared field by field in one place only when somebody wants to reuse the previous segment's object for a
+    restated index.  Such a comparison (two or more `a.f == b.f` pairs over the same two objects, in the segment module) must cover
+    every field that parsing a raw data index sets and the chunk layout depends on: the data type, the number of values and - for
+    strings it is independent of the other two - the total size; and the has_data flag, which a "no data" header in between clears.
+    On a tree without such a shortcut there is nothing to decide."""
+    prog = ctx.prog
+    mod = prog.module("tdms_segment")
+    # the fields a parsed index sets: attributes stored on self by the method that stores self.data_size
+    setters = [f for f in prog.functions.values() if f.module is mod and f.cls is not None and any(
+        isinstance(n, ast.Assign) and any(isinstance(t, ast.Attribute) and dotted(t.value) == "self" and t.attr == "data_size" for t in n.targets)
+        for n in walk_body(f.node))]
+    fields = set()
+    for f in setters:
+        for n in walk_body(f.node):
+            if isinstance(n, ast.Assign):
+                for t in n.targets:
+                    if isinstance(t, ast.Attribute) and dotted(t.value) == "self" and not t.attr.startswith("_"):
+                        fields.add(t.attr)
+    fields |= {"has_data"} if fields else set()
+    n = 0
+    for f in sorted(prog.functions.values(), key=lambda f: f.qual):
+        if f.module is not mod:
+            continue
+        pairs = {}
+        for c in walk_body(f.node):
+            if isinstance(c, ast.Compare) and len(c.ops) == 1 and isinstance(c.ops[0], (ast.Eq, ast.NotEq)) and isinstance(c.left, ast.Attribute) \
+                    and isinstance(c.comparators[0], ast.Attribute) and c.left.attr == c.comparators[0].attr \
+                    and isinstance(c.left.value, ast.Name) and isinstance(c.comparators[0].value, ast.Name) and c.left.value.id != c.comparators[0].value.id:
+                pairs.setdefault(frozenset((c.left.value.id, c.comparators[0].value.id)), set()).add(c.left.attr)
+        for objs, attrs in pairs.items():
+            if len(attrs) < 2 or not (attrs & fields):
+                continue
+            n += 1
+            # a lone test of has_data of either object counts as covering it
+            covers = set(attrs) | {x.attr for x in ast.walk(f.node) if isinstance(x, ast.Attribute) and x.attr == "has_data" and isinstance(x.value, ast.Name) and x.value.id in objs}
+            missing = sorted((fields & {"data_type", "number_values", "data_size", "has_data"}) - covers)
+            key = "%s::fields compared (%s)" % (f.qual, ", ".join(sorted(objs)))
+            if missing:
+                R.violation(key, f.where(), "two segment objects are taken for the same raw data index after comparing %s only; %s %s not compared: an index that "
+                            "differs in it (a string channel with the same number of values and another total size; an object that a `no data` header "
+                            "switched off in between) is answered with the previous object" % (sorted(attrs), ", ".join(missing), "is" if len(missing) == 1 else "are"))
+            else:
+                R.ok(key, f.where(), "compares %s" % sorted(covers & fields))
+    if n == 0:
+        R.note("no field-by-field comparison of two segment objects in nptdms.tdms_segment (nothing to decide)")
+
+
 @rule("SF1", "a converting scale never hands its input back unchanged", floor=5)
 def sf1(ctx, R):
     """Linear, Polynomial, RTD, Thermistor, Thermocouple, Table, Strain, Add and Subtract scales compute new values in the working type.
